@@ -30,6 +30,8 @@ def first_bytes(el):
         return set(DIGITS)
     if k == "hex_u32":
         return set(HEX)
+    if k == "run" and el.param[1] > 0:
+        return set(IntSet(el.param[0]).values())
     return set(ALL)
 
 
@@ -56,6 +58,10 @@ def run(ctx, chk):
                 nxt = chain[i + 1] if i + 1 < len(chain) else None
                 if el.kind in ("digit1",) and nxt is not None:
                     chk.ob(not (first_bytes(nxt) & DIGITS), "C08/greedy/%s/%d" % (cfg, i), "digit run followed by an element that may start with a digit [%s]: %r then %r" % (cfg, el, nxt))
+                if el.kind == "run" and nxt is not None:
+                    # greedy run: exact as a regular expression only when what follows cannot start inside the class
+                    chk.ob(not (first_bytes(nxt) & set(IntSet(el.param[0]).values())), "C08/greedy-run/%s/%d" % (cfg, i),
+                           "reason=unanalysable: predicate-driven run followed by an element that may start with a byte of its class [%s]: %r then %r" % (cfg, el, nxt))
             try:
                 frs.append(grammar.path_fragment(f, chain))
             except Unanalysable as u:
